@@ -5,7 +5,8 @@ drv_sendq — trace acceptance for the send-queue model (C12).
 
   sendq trace <n> <prog_0> … <prog_{n-1}> | <act> <act> …
 
-`prog_i`: `-` or comma-separated `<id>s` (one stream write) / `<id>b` (three stream writes).
+`prog_i`: `-` or comma-separated `<id>s[<kind>]` (one stream write) / `<id>b[<kind>]` (three stream writes);
+`kind` = the message type `_send` is called with (1 request, 2 reply, 3 exception; default 1).
 Actions (the shared actions the real `_send` performed, in the order they happened; `t` = logical thread):
   s<t>:<id>      `_send` was called with message <id> (thread-local: the datum is being serialised)
   a<t>:<id>      `_send_queue.append` of message <id>
@@ -37,9 +38,13 @@ def splitOn (sep : Char) (cs : List Char) : List (List Char) :=
   (cur.reverse :: acc).reverse
 
 def parseMsg (cs : List Char) : Option Msg :=
-  match cs.reverse with
-  | 's' :: r => (parseNatChars r.reverse).map (fun i => ⟨i, false⟩)
-  | 'b' :: r => (parseNatChars r.reverse).map (fun i => ⟨i, true⟩)
+  -- <id><s|b>[<kind>]: kind = the message type `_send` was called with (default 1 = request)
+  match cs.span (fun c => c.isDigit) with
+  | (idc, size :: kc) =>
+    match parseNatChars idc, (if kc.isEmpty then some 1 else parseNatChars kc) with
+    | some i, some k =>
+      if size = 's' then some ⟨i, false, k⟩ else if size = 'b' then some ⟨i, true, k⟩ else none
+    | _, _ => none
   | _ => none
 
 def parseProg (tok : String) : Option (List Msg) :=
